@@ -13,6 +13,8 @@ import (
 	"strings"
 	"sync"
 
+	"gmqttverif/internal/ssax"
+
 	"golang.org/x/tools/go/callgraph"
 	"golang.org/x/tools/go/callgraph/cha"
 	"golang.org/x/tools/go/callgraph/vta"
@@ -120,6 +122,7 @@ func Load(opt Options) (*Program, error) {
 		return nil, fmt.Errorf("no module packages (%s) among %d loaded", ModPath, len(pkgs))
 	}
 	p.Fset = pkgs[0].Fset
+	ssax.SigGuard = CheckParams
 	prog, spkgs := ssautil.AllPackages(pkgs, ssa.InstantiateGenerics)
 	prog.Build()
 	p.SSA = prog
@@ -224,7 +227,10 @@ func (p *Program) Func(rel, name string) *ssa.Function {
 	if f == nil {
 		panic(AnchorError{fmt.Sprintf("function %s.%s", rel, name)})
 	}
-	checkSignature(f)
+	// strict: a changed parameter list usually comes with logic moved between caller and callee, which the
+	// rules anchored in either cannot follow; refusing the anchor is the honest answer
+	CheckResults(f)
+	CheckParams(f)
 	return f
 }
 
